@@ -134,15 +134,97 @@ def w_run(run, st_, k, n):
                     st_.fail(sig, r[1], r[2])
 
 
+# ---- symbolic displacements: the only place where a NAME and a number meet in one operand -------------------------------------
+def sym_spellings(base, sym, n):
+    """equivalent Intel spellings of the address base + sym + n (base: 'ebx' or 'ebx+esi*2'); the first one is the reference"""
+    sn = ("+%d" % n) if n > 0 else (("-%d" % -n) if n < 0 else "")
+    out = [("inside:base+sym+n", "[%s+%s%s]" % (base, sym, sn))]
+    if n:
+        out.append(("inside:base+n+sym", "[%s%s+%s]" % (base, sn, sym)))
+        out.append(("inside:sym+base+n", "[%s+%s%s]" % (sym, base, sn)))
+        out.append(("outside:n+sym[base]", "%d+%s[%s]" % (n, sym, base)))
+        out.append(("outside:hex n+sym[base]", "%s0x%x+%s[%s]" % ("-" if n < 0 else "", abs(n), sym, base)))
+    else:
+        out.append(("inside:sym+base", "[%s+%s]" % (sym, base)))
+        out.append(("outside:sym[base]", "%s[%s]" % (sym, base)))
+    return out
+
+
+def sym_lines():
+    out = []
+    for mn, pre, post in (("lea", "eax, ", ""), ("mov", "ecx, DWORD PTR ", ""), ("add", "DWORD PTR ", ", 1"), ("push", "DWORD PTR ", ""), ("mov", "BYTE PTR ", ", dl"), ("cmp", "WORD PTR ", ", ax")):
+        for base in ("ebx", "ebp", "esi", "ebx+esi*2", "eax+ecx*4"):
+            for sym in ("a", "foo", "_x1"):
+                for n in (0, 1, -1, 8, -8, 127, -128, 128, -129, 0x1000, -0x1000, 0x7FFFFFFF, -0x80000000):
+                    out.append((mn, pre, post, base, sym, n))
+    return out
+
+
+def judge_sym(item):
+    from miasmx.arch.ia32_arch import x86mnemo
+    mn, pre, post, base, sym, n = item
+
+    def A(l):
+        try:
+            return ("ok", frozenset(bytes(x) for x in x86mnemo.asm(l)))
+        except Exception as e:
+            return ("raises", type(e).__name__)
+    sp = sym_spellings(base, sym, n)
+    ref_line = "%s %s%s%s" % (mn, pre, sp[0][1], post)
+    ref = A(ref_line)
+    if ref[0] != "ok" or not ref[1]:
+        return "excluded", []
+    res = []
+    for kind, text in sp[1:]:
+        line = "%s %s%s%s" % (mn, pre, text, post)
+        r = A(line)
+        if r == ref:
+            res.append((None, kind, line))
+        else:
+            res.append((("symbolic-displacement", kind, "negative" if n < 0 else "positive"),
+                        "'%s' assembles to %s but the equivalent '%s' to %s" % (ref_line, show(ref), line, show(r)), {"sym": list(item)}))
+    return "ok", res
+
+
+def w_sym(run, st_, k, items):
+    with runner.quiet():
+        for item in items:
+            state, res = judge_sym(item)
+            if state == "excluded":
+                st_.ev()
+                st_.exclude("symbolic_base_line_rejected")
+                continue
+            for r in res:
+                st_.ev()
+                if r[0] is None:
+                    st_.klass("same:symbolic " + r[1])
+                    st_.nt((r[1], r[2]))
+                else:
+                    st_.klass("differs:" + r[0][0])
+                    sig = runner.norm_sig(r[0])
+                    if sig in run.known:
+                        st_.known_hits[sig] += 1
+                    elif not any(f[0] == sig for f in st_.failures):
+                        st_.fail(sig, r[1], r[2])
+
+
 def main(run):
     run.rule = ("Hypothesis specs (vlib/asmgen.py) x %d presentation-only rewrites applied where they change the text and cannot change the meaning, plus the AT&T "
-                "transliteration of the same spec; the candidate SETS are compared. non-trivial = a rewrite whose text differs from the base line; distinct = (rewrite, variant text)" % len(asmgen.REWRITES))
+                "transliteration of the same spec; plus 3510 symbolic-displacement operands (base + name + number) in 3-5 equivalent spellings inside / outside the brackets; the candidate SETS are compared. non-trivial = a rewrite whose text differs from the base line; distinct = (rewrite, variant text)" % len(asmgen.REWRITES))
     run.assumptions = ["rewrites that can change meaning are not generated: two unscaled registers are never swapped, numbers never differ modulo the operand width, size keywords are never changed",
                        "lines whose base spelling is rejected are outside the domain"]
     runner.pmap(run, w_run, [run.pick(1200, 20000)] * 16)
+    runner.pmap(run, w_sym, list(runner.chunks(sym_lines(), 80)))
 
 
 def replay(run, case):
+    if "sym" in case:
+        with runner.quiet():
+            state, res = judge_sym(tuple(case["sym"]))
+        for r in res:
+            if r[0] is not None and (run.want_sig is None or runner.norm_sig(r[0]) == run.want_sig):
+                return (r[0], r[1])
+        return None
     sp = case["spec"]
     sp["ops"] = [tuple(o) for o in sp["ops"]]
     with runner.quiet():
